@@ -25,13 +25,13 @@ type c01Val struct {
 }
 
 type c01Rule struct {
-	Name     string             `json:"name"`
-	Kinds    []string           `json:"kinds"`
-	State    map[string]c01Val  `json:"state,omitempty"`
-	HasState bool               `json:"has_state,omitempty"`
-	Scope    []string           `json:"scope"`
-	Prio     int                `json:"prio,omitempty"`
-	Suppress []string           `json:"suppress,omitempty"`
+	Name     string            `json:"name"`
+	Kinds    []string          `json:"kinds"`
+	State    map[string]c01Val `json:"state,omitempty"`
+	HasState bool              `json:"has_state,omitempty"`
+	Scope    []string          `json:"scope"`
+	Prio     int               `json:"prio,omitempty"`
+	Suppress []string          `json:"suppress,omitempty"`
 }
 
 type c01Event struct {
@@ -45,7 +45,13 @@ type c01Event struct {
 	PauseNs  int               `json:"pause,omitempty"`
 }
 
+type c01Reload struct {
+	Rules   []c01Rule    `json:"rules"`
+	Clients [][]c01Event `json:"clients"`
+}
+
 type c01Plan struct {
+	Reload  *c01Reload        `json:"reload,omitempty"`   // Finish(), Reset(), load this rule set, Start(), second batch of events
 	ViaECAL bool              `json:"via_ecal,omitempty"` // rules are declared as ECAL sinks (attribute -> rule conversion in the interpreter)
 	Workers int               `json:"workers"`
 	Rules   []c01Rule         `json:"rules"`
@@ -210,6 +216,23 @@ func c01Gen(r *simrt.RNG, tier string) interface{} {
 		}
 		p.Scopes = append(p.Scopes, sc)
 	}
+	if !p.ViaECAL && !many && r.Bool(0.15) {
+		// a reload: the same number of rules, a few of them with other kind patterns
+		rl := &c01Reload{Rules: append([]c01Rule(nil), p.Rules...)}
+		for i := range rl.Rules {
+			if r.Bool(0.4) {
+				nr := rl.Rules[i]
+				nr.Kinds = []string{c01GenKind(r, true)}
+				rl.Rules[i] = nr
+			}
+		}
+		var evs []c01Event
+		for i := 0; i < 2+r.Intn(4); i++ {
+			evs = append(evs, c01GenEvent(r, p, 1, containers))
+		}
+		rl.Clients = [][]c01Event{evs}
+		p.Reload = rl
+	}
 	nc := 1 + r.Intn(3)
 	for c := 0; c < nc; c++ {
 		var evs []c01Event
@@ -232,6 +255,17 @@ func c01Gen(r *simrt.RNG, tier string) interface{} {
 			evs = append(evs, e)
 		}
 		p.Clients = append(p.Clients, evs)
+	}
+	if p.Reload != nil {
+		// events of kinds already seen before the reload (the pre-check cache must not survive it)
+		for i := range p.Reload.Clients[0] {
+			if r.Bool(0.6) {
+				src := p.Clients[r.Intn(len(p.Clients))]
+				e := src[r.Intn(len(src))]
+				p.Reload.Clients[0][i].Kind, p.Reload.Clients[0][i].Segs = e.Kind, e.Segs
+			}
+			p.Reload.Clients[0][i].Scope = r.Intn(len(p.Scopes))
+		}
 	}
 	return p
 }
@@ -324,6 +358,11 @@ func c01Shrink(pi interface{}) []interface{} {
 	if p.ViaECAL {
 		q := clone()
 		q.ViaECAL = false
+		out = append(out, q)
+	}
+	if p.Reload != nil {
+		q := clone()
+		q.Reload = nil
 		out = append(out, q)
 	}
 	return out
@@ -580,11 +619,12 @@ func refExpected(p *c01Plan, ev *c01Event) (must map[string]bool, open map[strin
 // ---------------------------------------------------------------------------
 
 type c01Inst struct {
-	id       int
-	ev       *c01Event
-	fired    map[string]int
-	added    bool
-	skipped  bool
+	view          *c01Plan // the rule set that was loaded when the event was added
+	id            int
+	ev            *c01Event
+	fired         map[string]int
+	added         bool
+	skipped       bool
 	childrenAdded bool
 }
 
@@ -599,8 +639,9 @@ func c01Run(p *c01Plan) {
 		proc = engine.NewProcessor(p.Workers)
 	}
 	var insts []*c01Inst
+	view := p
 	newInst := func(ev *c01Event) *c01Inst {
-		in := &c01Inst{id: len(insts), ev: ev, fired: map[string]int{}}
+		in := &c01Inst{view: view, id: len(insts), ev: ev, fired: map[string]int{}}
 		insts = append(insts, in)
 		return in
 	}
@@ -650,22 +691,25 @@ func c01Run(p *c01Plan) {
 			simrt.Fail("oracle:add-rule", "add-rule", "sink declarations do not load: %v\n%s", err, src)
 		}
 	}
-	for i := range p.Rules {
-		if p.ViaECAL {
-			break
-		}
-		ru := &p.Rules[i]
-		r := &engine.Rule{Name: ru.Name, KindMatch: ru.Kinds, ScopeMatch: ru.Scope, Priority: ru.Prio, SuppressionList: ru.Suppress, Action: action(ru.Name)}
-		if ru.HasState {
-			r.StateMatch = map[string]interface{}{}
-			for k, v := range ru.State {
-				r.StateMatch[k] = v.goValue()
+	addRules := func(rules []c01Rule) {
+		for i := range rules {
+			if p.ViaECAL {
+				break
+			}
+			ru := &rules[i]
+			r := &engine.Rule{Name: ru.Name, KindMatch: ru.Kinds, ScopeMatch: ru.Scope, Priority: ru.Prio, SuppressionList: ru.Suppress, Action: action(ru.Name)}
+			if ru.HasState {
+				r.StateMatch = map[string]interface{}{}
+				for k, v := range ru.State {
+					r.StateMatch[k] = v.goValue()
+				}
+			}
+			if err := proc.AddRule(r); err != nil {
+				simrt.Fail("oracle:add-rule", "add-rule", "AddRule(%s): %v", ru.Name, err)
 			}
 		}
-		if err := proc.AddRule(r); err != nil {
-			simrt.Fail("oracle:add-rule", "add-rule", "AddRule(%s): %v", ru.Name, err)
-		}
 	}
+	addRules(p.Rules)
 	proc.Start()
 	addEvent = func(in *c01Inst, m engine.Monitor, wait bool) {
 		var res engine.Monitor
@@ -681,41 +725,55 @@ func c01Run(p *c01Plan) {
 		}
 		if res == nil {
 			in.skipped = true
-			must, _ := refExpected(p, in.ev)
+			must, _ := refExpected(in.view, in.ev)
 			if len(must) > 0 {
 				simrt.Fail("oracle:event-skipped", "event-skipped",
 					"event %q of kind %s state %v was reported as not triggering (nil monitor) although rule(s) %v match it", in.ev.Name, fmt.Sprintf("%q", in.ev.segs()), in.ev.State, keysOf(must))
 			}
 		}
 		if wait && res != nil {
-			c01CheckInst(p, in, "AddEventAndWait returned")
+			c01CheckInst(in.view, in, "AddEventAndWait returned")
 		}
 	}
-	var wg simsync.WaitGroup
-	for ci, evs := range p.Clients {
-		evs := evs
-		wg.Add(1)
-		simrt.Go(fmt.Sprintf("client%d", ci), func() {
-			defer wg.Done()
-			for i := range evs {
-				ev := &evs[i]
-				if ev.PauseNs > 0 {
-					simtime.Sleep(simtime.Duration(ev.PauseNs))
+	runClients := func(clients [][]c01Event, tag string) {
+		var wg simsync.WaitGroup
+		for ci, evs := range clients {
+			evs := evs
+			wg.Add(1)
+			simrt.Go(fmt.Sprintf("%sclient%d", tag, ci), func() {
+				defer wg.Done()
+				for i := range evs {
+					ev := &evs[i]
+					if ev.PauseNs > 0 {
+						simtime.Sleep(simtime.Duration(ev.PauseNs))
+					}
+					in := newInst(ev)
+					rm := proc.NewRootMonitor(nil, engine.NewRuleScope(p.Scopes[ev.Scope]))
+					addEvent(in, rm, ev.Wait)
 				}
-				in := newInst(ev)
-				rm := proc.NewRootMonitor(nil, engine.NewRuleScope(p.Scopes[ev.Scope]))
-				addEvent(in, rm, ev.Wait)
+			})
+		}
+		wg.Wait()
+		simrt.WaitQuiescent()
+		for _, in := range insts {
+			if in.added {
+				c01CheckInst(in.view, in, "end of phase (quiescent)")
 			}
-		})
-	}
-	wg.Wait()
-	simrt.WaitQuiescent()
-	for _, in := range insts {
-		if in.added {
-			c01CheckInst(p, in, "end of run (quiescent)")
 		}
 	}
+	runClients(p.Clients, "")
 	proc.Finish()
+	if p.Reload != nil {
+		simrt.Count("fault_reload_rules")
+		if err := proc.Reset(); err != nil {
+			simrt.Fail("oracle:reset", "reset-error", "Reset after Finish: %v", err)
+		}
+		view = &c01Plan{Workers: p.Workers, Rules: p.Reload.Rules, Scopes: p.Scopes}
+		addRules(p.Reload.Rules)
+		proc.Start()
+		runClients(p.Reload.Clients, "reload-")
+		proc.Finish()
+	}
 }
 
 func keysOf(m map[string]bool) []string {
